@@ -21,7 +21,13 @@ loops shared with the code), for 201 layers (the Python code) and for 200 layers
 not executed); np.interp between knots and constant beyond; the transmissivity
 formula with math.pow; refusal exactly above the ceiling.
 """
+import concurrent.futures as cf
+import hashlib
+import itertools
+import json
 import math
+import os
+import threading
 import warnings
 from fractions import Fraction as F
 
@@ -34,7 +40,7 @@ PROP = 'C16'
 MODS = ('Model.Transm Model.TransmEval Model.Peatclsm Model.PeatclsmEval Proofs.PeatclsmSpec '
         'Proofs.PeatclsmTac')
 MODELS = ['Model/Transm.vo', 'Model/TransmEval.vo', 'Model/Peatclsm.vo', 'Model/PeatclsmEval.vo',
-          'Proofs/PeatclsmSpec.vo', 'Proofs/PeatclsmTac.vo']   # what the generated case files import
+          'Proofs/PeatclsmSpec.vo', 'Proofs/PeatclsmTac.vo', 'Model/PeatclsmFloat.vo']   # what the generated case files import
 TOL_SY = F(1, 10 ** 9)
 
 PUBLISHED = dict(sd='0.162', theta_s='0.88', b='7.4', psi_s='-0.024')
@@ -104,6 +110,43 @@ def T_oracle(Ks, alpha, zmax, z):
     return ('ok', Ks * math.pow(zmax - zc, 1 - alpha) / (100 * (alpha - 1)))
 
 
+# ------------------------------------------------------------- certified tables, cached
+
+TABLE_DEPS = [m for m in MODELS if 'Float' not in m] + ['Model/Util.vo']
+
+
+def certified_tables(p):
+    """H.peat_tables for the parameter set p.  The tables are facts about the
+    model only (cdf and Campbell values of p; nothing of the implementation
+    enters), so their compiled proofs are kept under work/C16/tabcache_<key>
+    and reused, like any .vo that `make` finds up to date.  The key hashes the
+    parameter set, the generator source and the compiled model / tactic files
+    the table proofs were checked against; VERIF_NO_CACHE=1 recertifies."""
+    h = hashlib.sha256()
+    h.update(repr(sorted((k, str(F(v))) for k, v in p.items())).encode())
+    h.update(open(H.__file__, 'rb').read())
+    for dep in TABLE_DEPS:
+        h.update(open(os.path.join(C.COQ, dep), 'rb').read())
+    key = h.hexdigest()[:20]
+    label = 'tabcache_' + key
+    d = os.path.join(C.WORK, PROP, label)
+    meta = os.path.join(d, 'meta.json')
+    if os.environ.get('VERIF_NO_CACHE') != '1' and os.path.exists(meta) and os.path.exists(os.path.join(d, 'Tab.vo')):
+        m = json.load(open(meta))
+        return dict(dir=d, eps=F(m['eps']), eta=F(m['eta']), errors=[], seconds=0.0, extra=('-Q', d, 'Tab'),
+                    cached=m['seconds'])
+    with TABLE_LOCKS.setdefault(key, threading.Lock()):
+        tab = H.peat_tables(PROP, label, fr(p))
+        if not tab['errors']:
+            with open(meta, 'w') as f:
+                json.dump(dict(eps=str(tab['eps']), eta=str(tab['eta']), seconds=tab['seconds'],
+                               p={k: str(v) for k, v in p.items()}), f)
+    return tab
+
+
+TABLE_LOCKS = {}
+
+
 # ------------------------------------------------------------- specific yield
 
 def unsaturated_layers(p, i):
@@ -122,7 +165,9 @@ def knot_goal(p, tab, i, v):
     return (stmt, 'idtac', tac)
 
 
-def check_sy(psets, out, label, knots_for):
+def check_sy(psets, out, label, knots_for, seed=0):
+    """psets: (name, parameters); knots_for(name, p) -> levels to enclose in Coq ([] = oracle only)."""
+    todo = []
     for n, (name, p) in enumerate(psets):
         pj = dict(level='sy', name=name, p=p)
         out.count('params:' + name.split('#')[0])
@@ -156,7 +201,7 @@ def check_sy(psets, out, label, knots_for):
             out.notes.append('published set: max |Python (201 layers) - R transcription (200 layers)| = %.3g'
                              % float(np.max(np.abs(vals - want_r))))
         # ---- oracle: linear in between, constant beyond, scalar = array
-        rng = C.rng_for(0, PROP, 'interp', name)
+        rng = C.rng_for(seed, PROP, 'interp', name)
         zs = ([-5000.0, -995.0, math.nextafter(-995.0, -math.inf), 1005.0, 1005.0000001, 4000.0, -990.0, 0.0, 3.3]
               + [rng.uniform(-995, 1005) for _ in range(40)])
         got = np.asarray(S(np.array(zs)), dtype=float)
@@ -171,28 +216,43 @@ def check_sy(psets, out, label, knots_for):
                 out.violation('oracle', 'scalar and array evaluation differ at %r mm: %r vs %r' % (z, float(S(z)), g),
                               case=pj)
                 break
-        # ---- correspondence: certified enclosure of sampled knots
+        # ---- correspondence: certified enclosure of sampled knots (run below, sets in parallel)
         ks = knots_for(name, p)
-        tab = H.peat_tables(PROP, '%s_tab%d' % (label, n), fr(p))
-        out.corr_errors += tab['errors']
-        out.notes.append('%s: cdf and Campbell tables certified in %.1fs, eps = %.2g, eta = %.2g'
-                         % (name, tab['seconds'], float(tab['eps']), float(tab['eta'])))
+        if ks and np.all(np.isfinite(vals)):
+            todo.append((n, name, p, pj, ks, vals, knots_mm, want))
+
+    def coq_part(job):
+        n, name, p, pj, ks, vals, knots_mm, want = job
+        tab = certified_tables(p)
         if tab['errors']:
-            continue
+            return tab, None, [], 0.0
         goals = [knot_goal(fr(p), tab, i, float(vals[i])) for i in ks]
-        head = 'Require Import Tab.Tab.\nFrom Coq Require Import ZArith Lia QArith Qreals.\nOpen Scope R_scope.\nNotation P := %s.\n' % H.peat_record(fr(p))
+        head = ('Require Import Tab.Tab.\nFrom Coq Require Import ZArith Lia QArith Qreals.\nOpen Scope R_scope.\n'
+                'Notation P := %s.\n' % H.peat_record(fr(p)))
         status, errs, secs = H.run_goals(PROP, '%s_knots%d' % (label, n), MODS, goals,
                                          per_file=max(1, (len(goals) + 15) // 16),
                                          extra_header=head, extra_args=tab['extra'])
+        return tab, status, errs, secs
+
+    with cf.ThreadPoolExecutor(max_workers=3) as ex:
+        results = list(ex.map(coq_part, todo))
+    for (n, name, p, pj, ks, vals, knots_mm, want), (tab, status, errs, secs) in zip(todo, results):
+        out.corr_errors += tab['errors']
+        out.notes.append('%s: cdf and Campbell tables %s, eps = %.2g, eta = %.2g'
+                         % (name, ('certified in %.1fs' % tab['seconds']) if 'cached' not in tab else
+                            ('reused from work/C16 (certified earlier in %.1fs against the same model build)'
+                             % tab['cached']), float(tab['eps']), float(tab['eta'])))
+        if tab['errors']:
+            continue
         out.corr_errors += errs
         out.notes.append('%s: %d knots enclosed in %.1fs' % (name, len(ks), secs))
-        for i, s in zip(ks, status):
+        for i, st in zip(ks, status):
             nuns = unsaturated_layers(fr(p), i)
             out.count('knot-layers:%s' % ('0' if nuns == 0 else '1-20' if nuns <= 20 else '21-100' if nuns <= 100
                                           else '>100'))
             if nuns >= 2:
                 out.nontriv(('k', name, tuple(sorted(p.items())), i))
-            if s == 'MISMATCH':
+            if st == 'MISMATCH':
                 out.violation('corr', 'Coq cannot enclose sy_knot p 201 %d within 1e-9 of the implementation value %r '
                               '(level %g mm; independent profile gives %r); parameters %s'
                               % (i, float(vals[i]), knots_mm[i], want[i], p), case=dict(pj, knots=[i]))
@@ -213,11 +273,13 @@ def gen_T_cases(rng, count):
     for k in range(count):
         Ks = H.round_sig(H.loguniform(rng, 1e-4, 1e5), 3)
         alpha = rng.choice([3, 2, 1.5, 7.4, 20.0, 1.001, 1.25, 3.0, round(rng.uniform(1.01, 20), 2)])
-        zmax = rng.choice([1.0, 0.0, 5.0, -3.5, 12.25, 1.0, 0.1])
+        # ceilings incl. decimals d for which 10 d, (10 d) / 10 and (10 d) * 0.1 round differently
+        zmax = rng.choice([1.0, 0.0, 5.0, -3.5, 12.25, 1.0, 0.1, 0.3, 0.7, 1.2, -0.6, 2.3,
+                           round(rng.uniform(-5, 15), 1)])
         top = 10 * zmax
         kind = k % 8
         if kind == 0:
-            z = top                       # at the ceiling
+            z = rng.choice([top, round(top, 6)])     # at the ceiling (float product / decimal)
         elif kind == 1:
             z = top + rng.choice([1e-6, 0.5, 3.0, 1000.0])   # above: refused
         elif kind == 2:
@@ -230,8 +292,13 @@ def gen_T_cases(rng, count):
     return cases
 
 
+FLOAT_PREAMBLE = ('From Coq Require Import PrimFloat Uint63 List Bool.\nFrom Spowtd Require Import Model.Util '
+                  'Model.PeatclsmFloat.\nImport ListNotations.\n')
+
+
 def check_T(cases, out, label):
     goals, meta = [], []
+    fcases, fmeta = [], []
     for c in cases:
         Ks, alpha, zmax, z = c['Ks'], c['alpha'], c['zmax'], c['z']
         out.evaluations += 1
@@ -240,16 +307,21 @@ def check_T(cases, out, label):
         st, v = impl_T(Ks, alpha, zmax, arg)
         if st == 'ok' and c['form'] == 'array':
             st2, v2 = impl_T(Ks, alpha, zmax, float(z))
-            if st2 != 'ok' or not (float(v2) == float(v[0]) or abs(float(v2) - float(v[0])) <= 4e-16 * abs(float(v2))):
+            if st2 != 'ok' or not (float(v2) == float(v[0]) or abs(float(v2) - float(v[0])) <= 1e-14 * abs(float(v2))):   # numpy's array and scalar pow differ by a few ulp
                 out.violation('oracle', 'array and scalar transmissivity differ at %r: %r vs %r' % (z, v, v2), case=jc)
             v = v[0]
+        # float layer of the ceiling decision (every case, also one ulp beside the ceiling)
+        refused = st == 'err'
+        isinf = (not refused) and math.isinf(float(v))
+        fcases.append('(%s, %s, %s, %s)' % (C.cfloat(zmax), C.cfloat(z), C.cbool(refused), C.cbool(isinf)))
+        fmeta.append((jc, st, v))
         exact_gap = F(zmax) - F(z) / 10
         cls = 'above' if exact_gap < 0 else 'at-ceiling' if exact_gap == 0 else 'below'
         ulp = exact_gap != 0 and abs(exact_gap) <= 4 * abs(F(math.ulp(zmax if zmax else 1e-300)))
         out.count('T:' + cls + ('(ulp)' if ulp else ''))
         if ulp:
             # the code decides on the rounded quotient z/10: one ulp beside the ceiling the
-            # float decision may differ from the real one; recorded, not judged
+            # float decision may differ from the real one; judged by the binary64 model only
             fl = 'refused' if st == 'err' else 'inf' if not math.isfinite(float(v)) else 'value'
             out.count('T:ulp-beside:%s:%s' % (cls, fl))
             continue
@@ -267,6 +339,11 @@ def check_T(cases, out, label):
             if cls != 'at-ceiling' or float(v) < 0:
                 out.violation('oracle', 'transmissivity %r at level %r mm (ceiling %r cm)' % (v, z, zmax), case=jc)
             goals.append(('T_peat %s = Ok None' % lit, 'T_peat_eval', 'reflexivity'))
+        elif cls == 'at-ceiling':
+            out.violation('oracle', 'transmissivity at the ceiling (level %r mm, ceiling %r cm) is the finite value %r; '
+                          'the published formula has no finite value there (0 ^ (1 - alpha), alpha = %r)'
+                          % (z, zmax, float(v), alpha), case=jc)
+            continue
         else:
             v = float(v)
             rel = T_tol(alpha, zmax, z)
@@ -279,6 +356,15 @@ def check_T(cases, out, label):
             goals.append(('match T_peat %s with Ok (Some t) => Rabs (t - %s) <= %s | _ => False end'
                           % (lit, H.cR(v), H.cR(abs(F(v)) * rel)), 'T_peat_eval', H.INTERVAL))
         meta.append((c, st, v))
+    bad, ferrs, fsecs = C.run_case_shards(PROP, label + '_float', FLOAT_PREAMBLE, 'float * float * bool * bool',
+                                          'ceiling_check', fcases)
+    out.corr_errors += ferrs
+    out.notes.append('%s: %d ceiling decisions against the binary64 model in %.1fs' % (label, len(fcases), fsecs))
+    for k in bad:
+        jc, st, v = fmeta[k]
+        out.violation('corr', 'binary64 model of the ceiling decision (refused iff zmax < level/10 in floats; inf when '
+                      'zmax - level/10 == 0) disagrees with PeatclsmTransmissivity: implementation gives %s %r for %s'
+                      % (st, v, jc), case=jc)
     status, errs, secs = H.run_goals(PROP, label, MODS, goals, per_file=25)
     out.corr_errors += errs
     out.notes.append('%s: %d transmissivity goals in %.1fs' % (label, len(goals), secs))
@@ -288,6 +374,38 @@ def check_T(cases, out, label):
                           % (st, v, c), case=dict(level='T', **c))
         elif s == 'EVALFAIL':
             out.corr_errors.append(('T goal %s' % c, 'T_peat_eval failed'))
+
+
+def check_R_tables(out):
+    """The repository's two R-based tests, with the R script transcribed:
+    transmissivity table z = 0, -0.01, ..., -1.5 m (Ksmacz0 7.3, alpha 3, ceiling
+    1 cm built into the R formula) and the specific-yield table evaluated
+    through the callable at np.linspace(-0.995, 1.005, 201) m, under the tests'
+    own np.allclose."""
+    z_m = np.linspace(-1.5, 0.0, 151)[::-1]
+    ref = (7.3 * (1 - z_m * 100) ** (1 - 3)) / (100 * (3 - 1))        # Transmissivity(Ksmacz0, alpha, z) of the R script
+    st, got = impl_T(7.3, 3, 1.0, z_m * 1000)
+    out.evaluations += len(z_m)
+    out.count('R-table:transmissivity', len(z_m))
+    if st != 'ok' or not np.allclose(got, ref):
+        out.violation('oracle', 'published transmissivity parameters: the R reference table (151 levels, transcribed) '
+                      'is not reproduced under np.allclose: %s %r' % (st, got if st != 'ok' else
+                                                                      float(np.max(np.abs(got - ref) / ref))),
+                      case=dict(level='R'))
+    try:
+        S = impl_sy(PUBLISHED)
+        zeta_m = np.linspace(-0.995, 1.005, 201)
+        got = np.asarray(S(zeta_m * 1000), dtype=float)
+    except Exception as e:  # pylint: disable=broad-except
+        out.violation('oracle', 'published specific yield raises %s: %s' % (type(e).__name__, e), case=dict(level='R'))
+        return
+    _, want_r = db_profile(PUBLISHED, 200)
+    out.evaluations += 201
+    out.count('R-table:specific-yield', 201)
+    if not np.allclose(got, want_r):
+        out.violation('oracle', 'published specific yield: the R reference table (201 levels, 200 layers, transcribed) is '
+                      'not reproduced through the callable under np.allclose: max diff %r'
+                      % float(np.max(np.abs(got - want_r))), case=dict(level='R'))
 
 
 # ------------------------------------------------------------- parameter sets
@@ -300,30 +418,100 @@ def random_pset(rng):
                 psi_s=str(rng.choice([-0.01, -0.025, -0.1, -1.0, -round(rng.uniform(0.01, 1.0), 3)])))
 
 
+def wide_pset(rng):
+    """Admissible set with a wide microtopographic distribution: there the
+    201st layer (which the R script leaves out) carries weight."""
+    p = random_pset(rng)
+    p['sd'] = str(rng.choice([0.5, 1.0, 2.0]))
+    return p
+
+
+def corner_psets():
+    """The corners of the PEST bounds (sd: 0.001 stands for the open end at 0)."""
+    return [('corner#%d' % k, dict(sd=sd, theta_s=ths, b=b, psi_s=psi))
+            for k, (sd, ths, b, psi) in enumerate(itertools.product(['0.001', '2'], ['0.01', '1'], ['0.01', '20'],
+                                                                    ['-1', '-0.01']))]
+
+
+def top_layer_levels(p):
+    """Levels aimed at the branch of the 201st layer: the highest level at
+    which that layer is still unsaturated for the lower water level, and its
+    neighbours (above it the layer contributes nothing)."""
+    psi = F(p['psi_s'])
+    top = max(i for i in range(201) if not psi <= F(i - 201, 100) + F(1, 200))
+    return [i for i in (top + 1, top, top - 1) if 0 <= i <= 200]
+
+
+def boundary_probes(out):
+    """Ends of the PEST bounds that lie outside the property's quantification
+    (sd = 0: degenerate distribution; alpha = 1: division by zero): recorded,
+    judged only if the lead lists the finding (signature C16/sd-zero-refused)."""
+    p0 = dict(PUBLISHED, sd='0')
+    try:
+        S = impl_sy(p0)
+        res = 'value' if np.all(np.isfinite(S.sy_knots)) else 'nan'
+    except Exception as e:  # pylint: disable=broad-except
+        res = type(e).__name__
+    out.count('boundary:sd=0:' + res)
+    out.notes.append('sd = 0 (PEST lower bound, outside `admissible`): constructor gives %s' % res)
+    if res != 'value' and _listed('C16/sd-zero-refused'):
+        out.violation('oracle', 'sd = 0.0 is inside the calibration bounds written to the PEST control file '
+                      '(sd none relative NaN 0.0 2.0) but PeatclsmSpecificYield(sd=0.0, ...) gives %s' % res,
+                      case=dict(level='sy', name='sd-zero', p=p0, knots=[]), signature='C16/sd-zero-refused')
+    st, v = impl_T(7.3, 1, 1.0, -500.0)
+    out.count('boundary:alpha=1:%s' % (st if st == 'err' else 'inf' if not math.isfinite(float(v)) else 'value'))
+
+
+def _listed(signature):
+    import json
+    import os
+    path = os.path.join(C.VERIF, 'known_findings.json')
+    try:
+        return any(k.get('signature') == signature for k in json.load(open(path)).get('findings', []))
+    except (OSError, ValueError):
+        return False
+
+
 def run(ctx, out):
     C.import_spowtd()
     seed, tier = ctx['seed'], ctx['tier']
     rng = C.rng_for(seed, PROP)
+    wide = ('wide', wide_pset(C.rng_for(seed, PROP, 'wide')))
     if tier == 'quick':
         fixed = [200, 199, 190, 150, 101, 100, 99, 98, 60, 20, 1, 0]
-        psets = [('published', PUBLISHED)]
+        psets = [('published', PUBLISHED), wide]
+        n_oracle = 12
 
         def knots_for(name, p):
-            return fixed
+            if name == 'published':
+                return fixed
+            if name == 'wide':
+                return sorted(set(top_layer_levels(p) + [200, 100, 0]))
+            return []
     else:
-        psets = [('published', PUBLISHED)] + [('random#%d' % k, random_pset(rng)) for k in range(5)]
+        psets = [('published', PUBLISHED), wide] + [('random#%d' % k, random_pset(rng)) for k in range(4)]
+        n_oracle = 150
 
         def knots_for(name, p):
             if name == 'published':
                 return list(range(0, 201, 2)) + [199, 101, 99]
+            if name.startswith('oracle') or name.startswith('corner'):
+                return []
             r = C.rng_for(seed, PROP, name)
-            return sorted(set([200, 100, 0] + [r.randrange(0, 201) for _ in range(5)]))
-    check_sy(psets, out, 'sy', knots_for)
+            return sorted(set([200, 100, 0] + top_layer_levels(p) + [r.randrange(0, 201) for _ in range(4)]))
+    ro = C.rng_for(seed, PROP, 'oracle-sets')
+    psets += corner_psets() + [('oracle#%d' % k, (wide_pset if k % 3 == 0 else random_pset)(ro))
+                               for k in range(n_oracle)]
+    check_sy(psets, out, 'sy', knots_for, seed)
+    boundary_probes(out)
     check_T([dict(Ks=PUBLISHED_T['Ksmacz0'], alpha=PUBLISHED_T['alpha'], zmax=PUBLISHED_T['zeta_max_cm'], z=float(z),
                   form='float') for z in (0.0, -10.0, -500.0, -1500.0, 10.0, 10.5)]
             + gen_T_cases(rng, 200 if tier == 'quick' else 2000), out, 'T')
-    out.rule = ('specific yield: parameter sets (published; thorough adds random sets within the PEST bounds) x all 201 '
-                'tabulated levels through the oracle, a sample of levels through certified enclosure; 49 levels '
+    check_R_tables(out)
+    out.rule = ('specific yield: parameter sets (published, one wide-sd set, the 16 corners of the PEST bounds, random '
+                'sets within the bounds; thorough adds more) x all 201 tabulated levels through the oracle; for the '
+                'published, the wide and (thorough) 4 random sets a sample of levels through certified enclosure '
+                '(incl. the levels where the 201st layer switches on); 49 levels '
                 'between / beyond the knots; transmissivity: (Ks 1e-4..1e5, alpha in (1, 20], ceiling, level) with '
                 'levels at the ceiling, above it, 1e-6 below it, one ulp beside it, and down to 3 m below. '
                 'Non-trivial: an enclosed knot with >= 2 unsaturated layers, or a finite transmissivity value; '
@@ -342,8 +530,12 @@ def run(ctx, out):
 
 def replay(case, out):
     C.import_spowtd()
-    if case['level'] == 'T':
+    if case['level'] == 'R':
+        check_R_tables(out)
+    elif case['level'] == 'T':
         check_T([{k: case[k] for k in ('Ks', 'alpha', 'zmax', 'z', 'form')}], out, 'replay_T')
+    elif case.get('name') == 'sd-zero':
+        boundary_probes(out)
     else:
         ks = case.get('knots') or [200, 100, 0]
-        check_sy([(case['name'], case['p'])], out, 'replay_sy', lambda name, p: ks)
+        check_sy([(case['name'], case['p'])], out, 'replay_sy', lambda name, p: ks, case.get('seed', 0))
